@@ -150,6 +150,7 @@ def run(ctx):
                         rangeplan.tie_replace_step(ctx, info, d, f, t, args[2], reqs, metas)
                     elif name in ("delete", "delete_range"):
                         rangeplan.tie_replace_step(ctx, info, d, f, t, Slice.empty, reqs, metas)
+                        rangeplan.tie_delete_range_step(ctx, info, d, f, t, reqs, metas)
                     elif name in ("replace_with", "replace_range_with"):
                         rangeplan.tie_replace_step(ctx, info, d, f, t, Slice(Fragment.from_(n2), 0, 0), reqs, metas)
                     else:
